@@ -311,7 +311,9 @@ func (s *Server) sendResponseUnsafe(invokeID string, additionalHeaders map[strin
 	} else {
 		data, err := io.ReadAll(payload)
 		if err != nil {
-			return fmt.Errorf("Failed to read response on %s: %s", invokeID, err)
+			// the body broke off: nothing has been written, the caller of this method answers the runtime
+			log.Errorf("Failed to read response on %s: %s", invokeID, err)
+			return &interop.ErrTruncatedResponse{}
 		}
 		if len(data) > interop.MaxPayloadSize {
 			return &interop.ErrorResponseTooLarge{
